@@ -623,10 +623,15 @@ pub fn c14_pool() -> Vec<Version> {
         verb(1, 2, 3, "a", "x"),
         ver(0, 0, 0, ""),
         ver(0, 0, 0, "0"),
+        // prereleases sharing only part of the triple of some tagged bound of C14_RANGES
+        ver(1, 0, 0, "a"),
+        ver(1, 2, 4, "a"),
+        ver(2, 2, 3, "a"),
     ]
 }
 
-pub const C14_RANGES: [&str; 46] = [
+pub const C14_RANGES: [&str; 50] = [
+    "<1.3", ">=1.0.0 <=1.2.4-b", ">=1.0.0 <2.0.0-rc.2", ">=1.2.3-a <3",
     "1.x || ^1.2.3-a", "<3.0.0 || 1.0.0 - 1.2.3-b", ">=1.0.0 || 1.2.3-a", "^1.2.3-a || 1.x", "* || 2.0.0-0", ">=1.2.3-a <1.2.3 || <=1.2.3-b || 1.x",
     "*", "1.2.3", "=1.2.4", ">1.2.3", ">=1.2.3", "<1.2.4", "<=1.2.4", "~1.2.3", "^1.2.3", "1.x", "1.2.x", "1 - 2", "1.2.3 - 1.2.4", ">=1.2.3-a", ">1.2.3-a", "<1.2.3-b", "<=1.2.3-b",
     "~1.2.3-a", "^1.2.3-a", "1.2.3-a", "1.2.3-a - 1.2.3-b", ">=1.2.3-a <1.3.0", ">=1.3.0-a", "^2.0.0-0", ">=3.0.0-rc.0", "<0.0.0-1", ">=0.0.0-0", "1.2.3 || 2.0.0", "1.2.3-a || >=2", "<1.0.0 || >2.0.0",
@@ -662,6 +667,17 @@ pub fn check_c14(range_text: &str, r: &Range, list: &[Version], sink: &Sink) {
                 if !sat[idx] {
                     sink.report("not-satisfying", format!("{}|{}", key, which), case(), format!("{} does not satisfy", vtext_full(p)), if any { "a satisfying element".into() } else { "None".into() });
                     continue;
+                }
+                // "never selects a prerelease the range does not admit": admission by the reference
+                // gate over the crate's own bounds (the same statement Engine C checks for C03), so a
+                // gate that opens wrongly is seen at the resolver too
+                if is_pre(p) {
+                    if let Ok(ivs) = guarded(|| crate::engine_c::intervals_of(r)) {
+                        if !ivs.iter().any(|iv| iv.sat(p)) {
+                            sink.report("admit", format!("{}|{}", key, which), case(), format!("selected the prerelease {}", vtext_full(p)), "a version the range admits: no alternative both contains it and has a bound tagged on its major.minor.patch".into());
+                            continue;
+                        }
+                    }
                 }
                 for (i, v) in list.iter().enumerate() {
                     if !sat[i] {
@@ -747,7 +763,7 @@ pub fn run_c14(tier: &str, sink: &Sink) -> DOut {
     counters.insert("nontrivial".into(), nontrivial.load(AO::Relaxed));
     DOut {
         counters,
-        samples: vec![json!({"range": "^1.2.3-a", "list": ["1.3.0-a", "1.2.3-b", "1.2.4+b"]}), json!({"range": C14_RANGES[29], "list": ["2.0.0-0", "0.0.0"]})],
+        samples: vec![json!({"range": "^1.2.3-a", "list": ["1.3.0-a", "1.2.3-b", "1.2.4+b"]}), json!({"range": C14_RANGES[33], "list": ["2.0.0-0", "0.0.0"]})],
         rule: "Engine D / C14: every list of length 0..=L over a 14-version pool (releases, admitted and non-admitted prereleases, duplicates, versions equal up to build metadata) x 40 ranges (one per operator form, with/without prerelease opt-in, multi-alternative, unsatisfiable); oracle = definition of max/min over the satisfying elements in reference order + pointer identity with a slice element; all permutations are part of the enumeration; non-trivial = (list, range) with some but not all elements satisfying".into(),
         extra: BTreeMap::new(),
     }
